@@ -198,7 +198,6 @@ pub fn lazy_h<Tr: ?Sized + Trait + Cloneable, B: Backend, BY: Backend, E: Elem +
         assume(my.len + uses <= y.capacity());
     }
     let (sid, stag) = (m.id[j], m.tag[j]);
-    let cid = sid.wrapping_add(CLONE_STEP);
     let d0 = elems::total_drops();
 
     macro_rules! use_all {
@@ -217,30 +216,32 @@ pub fn lazy_h<Tr: ?Sized + Trait + Cloneable, B: Backend, BY: Backend, E: Elem +
             let mut u = 0;
             while u < 3 {
                 if u < uses {
+                    // the (u+1)-th clone of the source carries identity sid + (u+1) * CLONE_STEP
+                    let cid_u = sid.wrapping_add(CLONE_STEP.wrapping_mul(u as u8 + 1));
                     macro_rules! consume {
                         ($l:expr) => {{
                             match how {
                                 LzUse::Push => {
                                     y.push($l);
-                                    my.push(cid, stag);
+                                    my.push(cid_u, stag);
                                 }
                                 LzUse::Insert => {
                                     let at = p.idx2.get();
                                     assume(at <= my.len);
                                     y.insert(at, $l);
-                                    my.insert(at, cid, stag);
+                                    my.insert(at, cid_u, stag);
                                 }
                                 LzUse::Splice => {
                                     let at = p.idx2.get();
                                     assume(at <= my.len);
                                     drop(y.splice(at..at, core::iter::once($l)));
-                                    my.insert(at, cid, stag);
+                                    my.insert(at, cid_u, stag);
                                 }
                                 LzUse::Downcast => {
                                     let val = $l.downcast::<E>();
                                     vp_assert!(val.is_some(), "VP: lazy clone downcast to the real type failed");
                                     let val = val.unwrap();
-                                    check_elem::<E>(&val, cid, stag);
+                                    check_elem::<E>(&val, cid_u, stag);
                                     drop(val);
                                 }
                             }
